@@ -11,7 +11,7 @@ GENERIC_NOTE = ("Trusted: Lean 4.33 kernel + propext/Classical.choice/Quot.sound
 # property -> (technique, what the theorems say, extra trusted/partial note)
 CHECKS = {
     "C01": ("Lean 4 proof (simulation invariant over all key histories) + differential correspondence",
-            "C01_quiescent / C01_disconnect / C01_sounding_explained: for every accepted configuration and every disciplined key history, nothing sounds when no key is down and nothing sounds after the disconnect clean-up (induction with counter = holders, tracker ⊆ keys down, sounding ⊆ tracked); per-event axis theorems from C08.",
+            "C01_quiescent / C01_disconnect / C01_sounding_explained: for every accepted configuration and every disciplined key history, nothing sounds when no key is down and nothing sounds after the disconnect clean-up (induction with counter = holders, tracker ⊆ keys down, sounding ⊆ tracked); per-event axis theorems from C08; C01_mixed_explained / C01_mixed_quiescent / C01_mixed_disconnect: the same three statements by one induction over histories mixing key, axis, SYN and MIDI-input events (invariant Mixed.MInv: sounding ⊆ key tracker ∪ axis tracker, counter = holders, one axis-tracker entry per deflected axis).",
             "Partial: histories mixing key and axis events are covered per event (C08) and by the differential run, not by one induction."),
     "C02": ("Lean 4 proof (per-step theorems over every invariant state) + differential correspondence",
             "C02_release_pinned, C02_press_records, C02_frame_action_*, C02_actions_silent: the release emits only the Note Off recorded at the press; action keys never touch the tracker and emit nothing.", ""),
